@@ -95,6 +95,7 @@ std::string cstrJ(const char *s) { return s ? vx::jstr(QString::fromLatin1(s)) :
 long long g_idx = 0; int g_shard = 0, g_nshards = 1;
 vx::Summary sum;
 JsonFormatter *fCompact, *fIndent; SentryFormatter *fSentry;
+Formatter *g_fmtOverride = nullptr;   // family H: a formatter obtained through one of the library's front-ends
 
 std::string metaCommon(const Case &c)
 {
@@ -121,7 +122,7 @@ void run(const Case &c, const char *mode)   // mode: "jc" "ji" "s"
     LogMessage m(TYPES[c.type], ctx, c.msg);
     for (auto &a : c.attrs) m.setAttribute(a.first, a.second.v);
     if (!c.preFmt.isNull()) m.setFormattedMessage(c.preFmt);
-    QString out = mode[0] == 's' ? (c.fmt ? c.fmt : fSentry)->format(m) : (mode[1] == 'c' ? fCompact : fIndent)->format(m);
+    QString out = g_fmtOverride ? g_fmtOverride->format(m) : mode[0] == 's' ? (c.fmt ? c.fmt : fSentry)->format(m) : (mode[1] == 'c' ? fCompact : fIndent)->format(m);
     sum.cases++; sum.transitions++;
     sum.counters[std::string("cases_") + mode]++;
     QByteArray u = out.toUtf8();
@@ -228,6 +229,44 @@ void jsonSpace(int len)
     }
 }
 
+
+// H: JSON formatters the way applications obtain them - SimplePipeline::formatToJson(compact), JsonFormatter::instance(), the
+// constructor - requested in this process in an order that depends on the shard (statics are per process, so the 16 shards cover all
+// six orders of first use); every front-end must give the mode it was asked for whatever was requested before. Run in EVERY shard.
+void frontEnds()
+{
+    struct FE { const char *name; const char *mode; std::function<QSharedPointer<Formatter>()> get; };
+    std::vector<std::pair<QSharedPointer<SimplePipeline>, int>> keep;
+    auto viaPipeline = [&](bool compact) { auto sp = QSharedPointer<SimplePipeline>::create(); sp->formatToJson(compact); keep.push_back({ sp, 0 }); return std::as_const(*sp).handlers().last().dynamicCast<Formatter>(); };
+    std::vector<FE> fe = {
+        { "SimplePipeline::formatToJson(true)", "jc", [&] { return viaPipeline(true); } },
+        { "SimplePipeline::formatToJson(false)", "ji", [&] { return viaPipeline(false); } },
+        { "JsonFormatter::instance()", "ji", [] { return JsonFormatter::instance().staticCast<Formatter>(); } },
+    };
+    std::vector<int> order = { 0, 1, 2 };
+    for (int k = 0; k < g_shard % 6; k++) std::next_permutation(order.begin(), order.end());
+    std::vector<QSharedPointer<Formatter>> got(3);
+    for (int i : order) got[i] = fe[i].get();
+    // ... and once more after all of them exist
+    std::vector<QSharedPointer<Formatter>> again(3);
+    for (int i : order) again[i] = fe[i].get();
+    std::string ord; for (int i : order) ord += std::to_string(i);
+    g_force = true;
+    for (int round = 0; round < 2; round++) for (int i = 0; i < 3; i++) {
+        auto f = round ? again[i] : got[i];
+        if (!f) { fprintf(stderr, "ENGINE: front-end %s gave no formatter\n", fe[i].name); exit(3); }
+        g_fmtOverride = f.data();
+        forStrings(1, [&](const QString &x, long long n) {
+            Case c; c.type = int(n % 5); c.desc = std::string("formatter from ") + fe[i].name + (round ? " (second request)" : "") + ", order of first use " + ord; c.msg = x;
+            c.attrs.push_back({ QStringLiteral("k"), S(x) }); c.attrs.push_back({ QStringLiteral("m"), M({ { QStringLiteral("a"), I(1) }, { QStringLiteral("b"), L({ I(1), S(x) }) } }) });
+            run(c, fe[i].mode);
+        });
+        g_fmtOverride = nullptr;
+    }
+    g_force = false;
+    sum.counters["front_end_order_" + ord]++;
+}
+
 const char *ROUTED[8] = { "appname", "appversion", "os_name", "os_version", "kernel_version", "build_abi", "cpu_arch", "host_name" };
 
 void sentrySpace(int len)
@@ -330,7 +369,7 @@ int main(int argc, char **argv)
     int len = vx::argInt(argc, argv, "--len", 2);
     std::string mode = vx::argStr(argc, argv, "--mode", "json");
     JsonFormatter fc(true), fi(false); SentryFormatter fs; fCompact = &fc; fIndent = &fi; fSentry = &fs;
-    if (mode == "json") jsonSpace(len); else sentrySpace(len);
+    if (mode == "json") { jsonSpace(len); frontEnds(); } else sentrySpace(len);
     sum.bound = "strings <= " + std::to_string(len) + " symbols over " + std::to_string(SYM.size()) + " code points";
     sum.outcomes.insert("a"); sum.outcomes.insert("b");
     sum.print();
